@@ -240,6 +240,38 @@ def install_vec(I: Interp):
     M[("Vec", "any")] = lambda I, v, a, k, n: any(I.truth(x, n) for x in v.items)
     M[("Vec", "all")] = lambda I, v, a, k, n: all(I.truth(x, n) for x in v.items)
     M[("Vec", "item")] = lambda I, v, a, k, n: v.items[0]
+
+    def _isclose(I, a, k, n):
+        """tolerance comparison: an independent unknown per element pair (the tolerance decides, not the ordering)"""
+        from .absint import UnknownBool
+        x, y = a[0], a[1]
+        nx = len(x.items) if isinstance(x, Vec) else len(y.items) if isinstance(y, Vec) else None
+        xs = x.items if isinstance(x, Vec) else [x] * (nx or 1)
+        ys = y.items if isinstance(y, Vec) else [y] * (nx or 1)
+        tol = ",".join(f"{kk}={I.describe(vv)}" for kk, vv in sorted(k.items()))
+        out = [UnknownBool(f"isclose({I.describe(u)},{I.describe(w)}{';' + tol if tol else ''})") for u, w in zip(xs, ys)]
+        return Vec(out) if nx is not None else out[0]
+    E["numpy.isclose"] = _isclose
+    E["math.isclose"] = _isclose
+
+    def _clip(I, a, k, n):
+        import sympy as sp
+        x = a[0]
+        lo = a[1] if len(a) > 1 else k.get("a_min", k.get("min"))
+        hi = a[2] if len(a) > 2 else k.get("a_max", k.get("max"))
+        def one(v):
+            from .absint import num_to_sym
+            r = num_to_sym(v) if getattr(I, "sympy_mode", False) else v
+            if getattr(I, "sympy_mode", False):
+                if lo is not None:
+                    r = sp.Max(num_to_sym(lo), r)
+                if hi is not None:
+                    r = sp.Min(num_to_sym(hi), r)
+                return r
+            return Num.atom(f"clip({I.describe(v)},{I.describe(lo)},{I.describe(hi)})")
+        return Vec([one(v) for v in x.items]) if isinstance(x, Vec) else one(x)
+    E["numpy.clip"] = _clip
+    M[("Vec", "clip")] = lambda I, v, a, k, n: _clip(I, [v] + list(a), k, n)
     M[("Vec", "tolist")] = lambda I, v, a, k, n: list(v.items)
 
     def vgetitem(I, v, a, k, n):
